@@ -168,10 +168,21 @@ func ints(l []int) string {
 	return strings.Join(o, ",")
 }
 
+// dHonestBound is a generous upper bound for steps of an honest in-memory exchange (nothing here
+// measures time; the bound only keeps a wedged run from hanging).
+const dHonestBound = 20 * time.Second
+
 // dConn runs one connection: handshake for `first`, then follow-on command integers.
+//
+// closed reports whether the SERVER closed its end of the connection, observed BEFORE the harness
+// closes anything of its own whenever the server is expected to end the connection by itself (a
+// refused or unknown command, a handler that did not ask for keep-alive, a failed handshake): the
+// harness waits for ServeConn to return and reads whether Close was called on the server's own end.
+// Only when the server is legitimately waiting for a further command (every command sent so far
+// ran and asked for keep-alive) does the harness close the client end first.
 func dConn(d *dServer, cl dClient, cache *security.SessionCache, first int, follow []int, explicitSid string) (evs string, a, e bool, hsOK, resumed bool, closed bool, sid string) {
 	ca, cb := bufpipe.Pair("10.0.0.1:1111", "10.0.0.2:9618")
-	ctx, cancel := context.WithTimeout(context.Background(), 800*time.Millisecond)
+	ctx, cancel := context.WithTimeout(context.Background(), dHonestBound)
 	defer cancel()
 	d.mu.Lock()
 	d.log = nil
@@ -184,8 +195,10 @@ func dConn(d *dServer, cl dClient, cache *security.SessionCache, first int, foll
 	au := security.NewAuthenticator(cc, cst)
 	neg, err := au.ClientHandshake(ctx)
 	resumed = au.WasSessionResumed()
+	sent := 0
 	if err == nil {
 		hsOK = true
+		sent = 1
 		sid = neg.SessionId
 		a, e = neg.Authentication, cst.IsEncrypted()
 		for _, c := range follow {
@@ -193,28 +206,64 @@ func dConn(d *dServer, cl dClient, cache *security.SessionCache, first int, foll
 			if m.PutInt(ctx, c) != nil || m.FinishMessage(ctx) != nil {
 				break
 			}
-			// give the server a moment to dispatch; it answers nothing, so just proceed
-			time.Sleep(2 * time.Millisecond)
+			sent++
 		}
-		// wait for the server to finish what it will do, then close
-		time.Sleep(5 * time.Millisecond)
+	}
+	// Wait for the server to end the connection by itself, or to be demonstrably waiting for the
+	// next command (every command sent has entered its handler and the last one keeps alive).
+	serverEnded := false
+	if hsOK {
+		deadline := time.Now().Add(dHonestBound)
+	wait:
+		for time.Now().Before(deadline) {
+			select {
+			case <-done:
+				serverEnded = true
+				break wait
+			default:
+			}
+			d.mu.Lock()
+			waiting := len(d.log) == sent && sent > 0 && d.keep[d.log[len(d.log)-1].cmd]
+			d.mu.Unlock()
+			if waiting {
+				// the handler has been entered; give ServeConn the chance to return if it is going to
+				select {
+				case <-done:
+					serverEnded = true
+				case <-time.After(3 * time.Millisecond):
+				}
+				break wait
+			}
+			time.Sleep(100 * time.Microsecond)
+		}
+	}
+	if serverEnded {
+		closed = cb.ClosedBySelf() // before any close of the harness's own
 	}
 	ca.Close()
 	<-done
-	closed = cb.IsClosed()
+	if !serverEnded {
+		closed = cb.ClosedBySelf() // the peer went away: the server must still release its end
+	}
 	d.mu.Lock()
 	var parts []string
 	for _, inv := range d.log {
 		parts = append(parts, fmt.Sprintf("ran:%d", inv.cmd))
 	}
 	d.mu.Unlock()
-	parts = append(parts, "closed")
+	if closed {
+		parts = append(parts, "closed")
+	} else {
+		parts = append(parts, "open")
+	}
 	return strings.Join(parts, " "), a, e, hsOK, resumed, closed, sid
 }
 
+// dRaw sends one command on the raw (no-handshake) path and reports what ran and whether the SERVER
+// closed its end (read before the harness closes its own).
 func dRaw(d *dServer, cmd int) string {
 	ca, cb := bufpipe.Pair("10.0.0.1:1111", "10.0.0.2:9618")
-	ctx, cancel := context.WithTimeout(context.Background(), 300*time.Millisecond)
+	ctx, cancel := context.WithTimeout(context.Background(), dHonestBound)
 	defer cancel()
 	d.mu.Lock()
 	d.log = nil
@@ -226,6 +275,7 @@ func dRaw(d *dServer, cmd int) string {
 	_ = m.PutInt(ctx, cmd)
 	_ = m.FinishMessage(ctx)
 	<-done
+	closed := cb.ClosedBySelf()
 	ca.Close()
 	d.mu.Lock()
 	defer d.mu.Unlock()
@@ -233,7 +283,11 @@ func dRaw(d *dServer, cmd int) string {
 	for _, inv := range d.log {
 		parts = append(parts, fmt.Sprintf("ran:%d", inv.cmd))
 	}
-	parts = append(parts, "closed")
+	if closed {
+		parts = append(parts, "closed")
+	} else {
+		parts = append(parts, "open")
+	}
 	return strings.Join(parts, " ")
 }
 
@@ -350,7 +404,14 @@ func runDispatch(c *Ctx) error {
 				}
 				judge(spec, log, a, "")
 				if hsOK && !closed {
-					c.Violate(Violation{Property: "C05", Key: "C05:left-open", What: "the connection was not closed at the end of the dispatch", Ops: ops, Expected: "closed", Observed: "open"})
+					// the property text: "a refused or unknown command closes the connection". The server's own
+					// end was never closed by the server (read before the harness closed anything when the
+					// server ended the dispatch by itself).
+					if len(log) < len(seq) {
+						c.Violate(Violation{Property: "C05", Key: "C05:refusal-left-open", What: "a refused or unknown command ended the dispatch but the server did not close the connection", Ops: ops, Expected: "server closes its end of the connection", Observed: evs})
+					} else {
+						c.Violate(Violation{Property: "C05", Key: "C05:left-open", What: "the connection was not closed by the server at the end of the dispatch", Ops: ops, Expected: "closed", Observed: evs})
+					}
 				}
 				// reconnect with a different command: through the client's cache, or by naming the
 				// session explicitly (a client may resume any session it holds for ANY command);
@@ -379,7 +440,7 @@ func runDispatch(c *Ctx) error {
 						ex = sid
 						c.Count("reconnect-explicit-sid")
 					}
-					evs2, a2, e2, ok2, resumed, _, _ := dConn(d, cl, cache, other, nil, ex)
+					evs2, a2, e2, ok2, resumed, closed2, _ := dConn(d, cl, cache, other, nil, ex)
 					r2 := "ok hs-failed"
 					if ok2 {
 						r2 = fmt.Sprintf("ok a=%s e=%s %s", b01(a2), b01(e2), evs2)
@@ -398,6 +459,13 @@ func runDispatch(c *Ctx) error {
 						sa = a // a resumed session is exactly as authenticated as the handshake that created it
 					}
 					judge(now, log2, sa, "reconnect:")
+					if ok2 && !closed2 {
+						k := "C05:reconnect:left-open"
+						if len(log2) == 0 {
+							k = "C05:reconnect:refusal-left-open"
+						}
+						c.Violate(Violation{Property: "C05", Key: k, What: "after the reconnect the server ended the dispatch without closing the connection", Ops: ops, Expected: "server closes its end of the connection", Observed: evs2})
+					}
 				}
 				c.Distinct(fmt.Sprintf("%d|%d|%v|%v", si, ci, seq, keepL), len(seq) >= 2 || ci != 0)
 				cases = append(cases, Case{Label: fmt.Sprintf("dispatch spec%d client%d %v", si, ci, seq), Ops: ops, Real: real})
@@ -412,6 +480,9 @@ func runDispatch(c *Ctx) error {
 			real := []string{"ok", "ok " + dRaw(d, x)}
 			c.Distinct(fmt.Sprintf("raw|%d|%d", si, x), true)
 			cases = append(cases, Case{Label: "raw", Ops: ops, Real: real})
+			if strings.HasSuffix(real[1], "open") {
+				c.Violate(Violation{Property: "C05", Key: "C05:raw-path-left-open", What: "the raw path ended (unknown / non-raw command refused, or raw handler returned) but the server did not close the connection", Ops: ops, Expected: "server closes its end of the connection", Observed: real[1]})
+			}
 			if strings.Contains(real[1], "ran:") {
 				for _, rc := range []int{7, 8, 10, 11} {
 					if strings.Contains(real[1], fmt.Sprintf("ran:%d", rc)) {
